@@ -161,3 +161,62 @@ def returns(cfg: CFG) -> list[tuple[Node, ast.AST | None]]:
 def loc(fn: FunctionInfo, n: Node | ast.AST | None = None) -> str:
     line = getattr(n, "lineno", None) or fn.lineno
     return f"{fn.file}:{line}"
+
+
+def early_exits(cfg: CFG, head: Node) -> list[Node]:
+    """Statements that leave the loop of `head` before all elements are visited: break / return inside the loop
+    (raising is not an early exit: it aborts the whole operation)."""
+    out = []
+    for n in cfg.lexical_body(head):
+        if n.kind == "stmt" and isinstance(n.ast, (ast.Break, ast.Return)):
+            # a break of an inner loop is not an exit of this one
+            inner = [h for h in cfg.loop_heads() if h is not head and n in cfg.lexical_body(h) and h in cfg.lexical_body(head)]
+            if isinstance(n.ast, ast.Break) and inner:
+                continue
+            out.append(n)
+    return out
+
+
+MEMO_DECORATORS = {"lru_cache", "cache", "cached_property", "memoize", "memoized", "cached"}
+
+
+def scan_memoisation(tree: ast.Module) -> list[tuple[int, str, str]]:
+    """Functions wrapped by a memoising decorator that read attributes of their arguments (mutable state): (line, name, decorator)."""
+    out = []
+    for f in ast.walk(tree):
+        if not isinstance(f, (ast.FunctionDef, ast.AsyncFunctionDef)):
+            continue
+        for d in f.decorator_list:
+            target = d.func if isinstance(d, ast.Call) else d
+            name = dotted(target) or ""
+            if name.split(".")[-1] in MEMO_DECORATORS:
+                params = {a.arg for a in f.args.posonlyargs + f.args.args + f.args.kwonlyargs}
+                reads = sorted({f"{x.value.id}.{x.attr}" for x in ast.walk(f) if isinstance(x, ast.Attribute) and isinstance(x.value, ast.Name)
+                                and x.value.id in params and isinstance(x.ctx, ast.Load) and not x.attr.startswith("__")})
+                calls = sorted({f"{x.func.value.id}.{x.func.attr}()" for x in ast.walk(f) if isinstance(x, ast.Call) and isinstance(x.func, ast.Attribute)
+                                and isinstance(x.func.value, ast.Name) and x.func.value.id in params})
+                if reads or calls:
+                    out.append((f.lineno, f.name, f"@{name} over state {reads[:3] or calls[:3]}"))
+    return out
+
+
+def memoisation_rule(check, rule: str = "H8") -> None:
+    """No function of the package that reads state of its arguments is wrapped in a memoising decorator."""
+    import os
+
+    from ..report import VERIF
+
+    hits = []
+    for mod in check.program.modules.values():
+        for line, name, what in scan_memoisation(mod.tree):
+            hits.append((mod.relpath, line, name, what))
+    for rel, line, name, what in hits:
+        check.violation(rule, f"{rel}/{name}", f"`{name}` is memoised ({what}): the cached result is keyed by the identity of mutable objects, so it "
+                        "goes stale when their contents change - results then depend on what was computed earlier", f"{rel}:{line}")
+    if not hits:
+        check.ok(rule, "package/memoisation", f"no state-dependent function is memoised ({len(check.program.modules)} modules scanned)")
+    with open(os.path.join(VERIF, "selftest", "fixtures", "memoisation.py"), encoding="utf-8") as f:
+        fx = scan_memoisation(ast.parse(f.read()))
+    if len(fx) < 3:
+        raise AnalysisError(f"positive fixture for the memoisation rule no longer matches ({len(fx)})")
+    check.ok(rule, "fixture/memoisation", f"positive fixture matched {len(fx)} memoised state-dependent functions")
